@@ -18,8 +18,10 @@ from __future__ import annotations
 
 import ast
 
+from asl.absint import STOP, UNKNOWN, AbsEval, Machine
 from asl.cfg import cfg_of
 from asl.loader import norm, own_nodes
+from .common import make_resolver
 from .lru import enumerate_paths
 
 LEVEL = {
@@ -45,120 +47,165 @@ def run(ctx) -> None:
     r19_4(ctx)
 
 
+# --------------------------------------------------------------------------- shape machine
+class _ShapeOps:
+    """Finite model of the adapters' inputs: opaque objects whose only observable aspects are
+    the ABCs they satisfy (``isinstance`` answers come from the scenario), what awaiting them
+    gives (``('val', x)``) and which items iterating them yields.  Every next / await / yield
+    is appended to env['@trace']."""
+
+    def __init__(self, ctx, module, scenario: dict):
+        self.ctx, self.module, self.sc = ctx, module, scenario
+        self.ev = AbsEval(self)
+
+    # -- values
+    def awaited(self, v, env):
+        return UNKNOWN if v is UNKNOWN else ("val", v)
+
+    def _resolved(self, func_node) -> str:
+        r = self.ctx.pkg.resolve_expr_global(self.module, func_node)
+        return r.qual if r.kind in ("stdlib", "builtin", "lib") else norm(func_node)
+
+    def call(self, func, args, kwargs, node, env):
+        q = self._resolved(node.func)
+        last = q.split(".")[-1]
+        if last == "isinstance" and len(node.args) == 2 and len(args) == 2:
+            kinds = node.args[1].elts if isinstance(node.args[1], ast.Tuple) else [node.args[1]]
+            answers = [self.sc.get("isinstance", {}).get((args[0], norm(k).split(".")[-1]), UNKNOWN) for k in kinds]
+            if any(a is True for a in answers):
+                return True
+            return UNKNOWN if any(a is UNKNOWN for a in answers) else False
+        if last == "callable" and args:
+            return True
+        if last == "iscoroutinefunction" and args:
+            return self.sc.get("iscoroutinefunction", {}).get(args[0], UNKNOWN)
+        if last == "iter" and len(args) == 1 and args[0] is not UNKNOWN:
+            return ("iter", args[0])
+        if last == "cast" and len(args) == 2:
+            return args[1]
+        fv = env.get(func) if func.isidentifier() else None
+        if fv in self.sc.get("callables", {}):
+            return self.sc["callables"][fv]
+        return UNKNOWN
+
+    # -- iteration
+    @staticmethod
+    def _base(v):
+        while isinstance(v, tuple) and v[:1] == ("iter",):
+            v = v[1]
+        return v
+
+    def _take(self, source, env, key):
+        items = self.sc.get("items", {}).get(self._base(source))
+        pos = dict(env.get("@pos", {}))
+        k = ("src", self._base(source)) if items is not None else ("unk", key)
+        i = pos.get(k, 0)
+        if items is None:
+            items = [("unknown-item", key)]
+        if i >= len(items):
+            return STOP
+        pos[k] = i + 1
+        env["@pos"] = pos
+        return items[i]
+
+    def next(self, node, env):
+        source = self.ev.eval(node.info.get("iter"), env)
+        item = self._take(source, env, node.line)
+        how = "async" if node.kind == "pull" else "sync"
+        env["@trace"] = env.get("@trace", ()) + (("end" if item is STOP else "next", how, self._base(source)) + (() if item is STOP else (item,)),)
+        return item
+
+    def _is_next_call(self, node):
+        return node.kind == "call" and self._resolved(node.ast.func).split(".")[-1] == "next" and node.ast.args
+
+    def raises(self, node, env):
+        if self._is_next_call(node) and len(node.ast.args) == 1:
+            source = self.ev.eval(node.ast.args[0], env)
+            probe = dict(env)
+            if self._take(source, probe, node.line) is STOP:
+                env["@trace"] = env.get("@trace", ()) + (("end", "sync", self._base(source)),)
+                return ("new", "StopIteration")
+        return None
+
+    def matches(self, type_node, exc, env):
+        names = [norm(t) for t in (type_node.elts if isinstance(type_node, ast.Tuple) else [type_node])] if type_node is not None else ["BaseException"]
+        if isinstance(exc, tuple) and exc[:1] == ("new",):
+            return exc[1] in names or "BaseException" in names or "Exception" in names
+        return UNKNOWN
+
+    def visit(self, node, env, ev):
+        if self._is_next_call(node):
+            source = ev.eval(node.ast.args[0], env)
+            item = self._take(source, env, node.line)
+            if item is STOP:
+                item = ev.eval(node.ast.args[1], env) if len(node.ast.args) > 1 else UNKNOWN
+            else:
+                env["@trace"] = env.get("@trace", ()) + (("next", "sync", self._base(source), item),)
+            vals = dict(env.get("@callvals", {}))
+            vals[id(node.ast)] = item
+            env["@callvals"] = vals
+        elif node.kind == "call":
+            f = node.ast.func
+            fv = env.get(f.id) if isinstance(f, ast.Name) else None
+            if fv in self.sc.get("callables", {}):
+                env["@trace"] = env.get("@trace", ()) + (("call", fv, tuple(norm(a) for a in node.ast.args),
+                                                        tuple((k.arg, norm(k.value)) for k in node.ast.keywords)),)
+        elif node.kind == "await":
+            env["@trace"] = env.get("@trace", ()) + (("await", ev.eval(node.info.get("value"), env)),)
+        elif node.kind == "yield":
+            env["@trace"] = env.get("@trace", ()) + (("yield", ev.eval(node.info.get("value"), env)),)
+
+
+def _run(ctx, u, scenario, env):
+    ops = _ShapeOps(ctx, u.module, scenario)
+    return Machine(cfg_of(u), ops, resolver=make_resolver(ctx, u, ops)).run(env)
+
+
 def r19_1(ctx) -> None:
     u = ctx.unit("asynctools.await_each")
-    cfg = cfg_of(u)
     p = u.param_names()[0]
-    loops = [n for n in own_nodes(u.node) if isinstance(n, (ast.For, ast.AsyncFor))]
-    ctx.check(len(loops) == 1 and isinstance(loops[0], ast.For) and norm(loops[0].iter) == p, "R19.1", u,
-              loops[0] if loops else "await_each", "the awaitables are iterated directly, one at a time (no copy / reordering)")
-    comps = [n for n in own_nodes(u.node) if isinstance(n, (ast.ListComp, ast.GeneratorExp, ast.SetComp, ast.DictComp))]
-    calls = [n for n in own_nodes(u.node) if isinstance(n, ast.Call)]
-    ctx.check(not comps and not calls, "R19.1", u, (comps + calls)[0] if comps + calls else "await_each",
-              "nothing gathers or pre-awaits the input")
-    if len(loops) != 1:
-        return
-    var = norm(loops[0].target)
-    heads = [n for n in cfg.nodes if n.kind == "snext" and not n.tag]
-    for h in heads:
-        paths = enumerate_paths(cfg, h, lambda n: n is h or n.kind == "exit")
-        for path in paths:
-            nodes = [n for n, _l in path[1:]]
-            if not nodes or nodes[-1].kind == "exit":
-                continue
-            awaits = [n for n in nodes if n.kind == "await"]
-            ys = [n for n in nodes if n.kind == "yield"]
-            ok = len(awaits) == 1 and norm(awaits[0].info.get("value")) == var and len(ys) == 1 \
-                and ys[0].info.get("value") is awaits[0].ast and nodes.index(awaits[0]) < nodes.index(ys[0])
-            ctx.check(ok, "R19.1", u, ys[0] if ys else h, "each step awaits exactly the current awaitable and yields its "
-                      "value before the next awaitable is touched", node=h)
+    for n_items in (0, 1, 2, 3):
+        ctx.count("await_each_cells")
+        items = [f"A{i + 1}" for i in range(n_items)]
+        outs = _run(ctx, u, {"items": {"ARG": items}}, {p: "ARG"})
+        want = tuple(ev for a in items for ev in (("next", "sync", "ARG", a), ("await", a), ("yield", ("val", a)))) \
+            + (("end", "sync", "ARG"),)
+        got = {oc.env.get("@trace", ()) for oc in outs if oc.terminal.kind == "exit"}
+        bad = [oc for oc in outs if oc.terminal.kind != "exit"]
+        ctx.check(got == {want} and not bad, "R19.1", u, "await_each",
+                  f"[{n_items} awaitables] each step takes the next awaitable, awaits exactly it once and yields its value "
+                  "before the following awaitable is touched (lazy, in input order)",
+                  witness=f"evaluated trace(s): {sorted(map(str, got))[:2]}" + (f"; raises {bad[0].raised}" if bad else ""))
 
 
 def r19_2(ctx) -> None:
     u = ctx.unit("asynctools.any_iter")
     p = u.param_names()[0]
-    cfg = cfg_of(u)
-    main = [n for n in cfg.nodes if not n.tag]
-    disp = [n for n in main if n.kind == "branch" and isinstance(n.ast, ast.Call) and norm(n.ast.func) == "isinstance"
-            and norm(n.ast.args[1]) == "AsyncIterable"]
-    ctx.check(len(disp) == 1, "R19.2", u, disp[0] if disp else "any_iter", "the resolved object is dispatched on AsyncIterable")
-    if len(disp) != 1:
-        return
-    it_name = norm(disp[0].ast.args[0])
-    # every path from entry to the dispatch decides by isinstance(arg, Awaitable) whether to await
-    outer_tests = [n for n in main if n.kind == "branch" and isinstance(n.ast, ast.Call) and norm(n.ast.func) == "isinstance"
-                   and norm(n.ast.args[0]) == p and norm(n.ast.args[1]) == "Awaitable"]
-    ok = len(outer_tests) == 1
-    if ok:
-        for path in enumerate_paths(cfg, cfg.entry, lambda n: n is disp[0]):
-            nodes = [n for n, _l in path]
-            taken = [lab for n, lab in path if n is outer_tests[0]]
-            awaits = [n for n in nodes if n.kind == "await"]
-            stores = [n for n in nodes if n.kind == "store" and it_name in [t.id for t in n.info.get("targets", []) if isinstance(t, ast.Name)]]
-            if not taken or not stores:
-                ok = False
-                continue
-            last = stores[-1].info.get("value")
-            if isinstance(last, ast.IfExp):
-                neg = isinstance(last.test, ast.UnaryOp)
-                last = (last.orelse if neg else last.body) if taken[0] == "t" else (last.body if neg else last.orelse)
-            if taken[0] == "t":
-                ok = ok and len(awaits) == 1 and norm(awaits[0].info.get("value")) == p and isinstance(last, ast.Await)
-            else:
-                ok = ok and not awaits and norm(last) == p
-    ctx.check(ok, "R19.2", u, outer_tests[0] if outer_tests else "any_iter", "the outer object is awaited iff it is an "
-              "Awaitable, before its iteration protocol is inspected")
-    branches = [s for s in ast.walk(u.node) if isinstance(s, ast.If) and s.test is disp[0].ast]
-    if len(branches) != 1:
-        ctx.fail("R19.2", u, disp[0], "the dispatch on AsyncIterable selects between an async-for and a for branch")
-        return
-    b = branches[0]
-    a_loops = [s for s in b.body if isinstance(s, ast.AsyncFor)]
-    s_loops = [s for s in b.orelse if isinstance(s, ast.For)]
-    ok = len(a_loops) == 1 and len(s_loops) == 1 and len(b.body) == 1 and len(b.orelse) == 1
-    ctx.check(ok, "R19.2", u, b, "one async-for branch and one for branch")
-    if not ok:
-        return
-    al, sl = a_loops[0], s_loops[0]
-    ctx.check(norm(al.iter) == it_name and norm(sl.iter) == it_name, "R19.2", u, al, "both branches iterate the resolved object itself")
-    cfg = cfg_of(u)
-    sigs = {}
-    for loop, kind in ((al, "pull"), (sl, "snext")):
-        var = norm(loop.target)
-        heads = [n for n in cfg.nodes if n.kind == kind and n.ast is loop and not n.tag]
-        sig = set()
-        ok_all = bool(heads)
-        for h in heads:
-            for path in enumerate_paths(cfg, h, lambda n, h=h: n is h or n.kind == "exit"):
-                nodes = [n for n, _l in path[1:]]
-                if not nodes or nodes[-1].kind == "exit":
-                    continue
-                tests = [(n, lab) for n, lab in path if n.kind == "branch" and isinstance(n.ast, ast.Call)
-                         and norm(n.ast.func) == "isinstance" and "Awaitable" in norm(n.ast) and norm(n.ast.args[0]) == var]
-                awaits = [n for n in nodes if n.kind == "await"]
-                ys = [n for n in nodes if n.kind == "yield"]
-                if len(tests) != 1 or len(ys) != 1:
-                    ok_all = False
-                    continue
-                awaitable = tests[0][1] == "t"
-                yv = ys[0].info.get("value")
-                if awaitable:
-                    good = len(awaits) == 1 and norm(awaits[0].info.get("value")) == var and (
-                        yv is awaits[0].ast or (isinstance(yv, ast.IfExp) and any(x is awaits[0].ast for x in ast.walk(yv)))
-                        or (isinstance(yv, ast.Name) and any(
-                            s.kind == "store" and s.info.get("value") is awaits[0].ast and yv.id in
-                            [t.id for t in s.info["targets"] if isinstance(t, ast.Name)] for s in nodes)))
-                else:
-                    good = not awaits and (norm(yv) == var or isinstance(yv, ast.IfExp) or (
-                        isinstance(yv, ast.Name) and any(s.kind == "store" and norm(s.info.get("value")) == var for s in nodes)))
-                ok_all = ok_all and good
-                sig.add((awaitable, len(awaits)))
-        sigs[kind] = sig
-        ctx.check(ok_all and sig == {(True, 1), (False, 0)}, "R19.2", u, loop,
-                  "an item is yielded as is, or awaited (exactly once) first iff it is an Awaitable",
-                  witness=f"(is awaitable, awaits) on the paths of the loop body: {sorted(sig)}")
-    ctx.check(sigs.get("pull") == sigs.get("snext"), "R19.2", u, sl, "the per-item treatment is identical in the async and "
-              "the sync branch", witness=str(sigs))
+    table = {}
+    for outer_awaitable in (False, True):
+        resolved = ("val", "ARG") if outer_awaitable else "ARG"
+        for is_async in (False, True):
+            for item_awaitable in (False, True):
+                ctx.count("any_iter_cells")
+                sc = {"isinstance": {("ARG", "Awaitable"): outer_awaitable,
+                                     (resolved, "AsyncIterable"): is_async, (resolved, "AsyncIterator"): is_async,
+                                     ("ITEM", "Awaitable"): item_awaitable},
+                      "items": {resolved: ["ITEM"]}}
+                outs = _run(ctx, u, sc, {p: "ARG"})
+                how = "async" if is_async else "sync"
+                want = ((("await", "ARG"),) if outer_awaitable else ()) + (("next", how, resolved, "ITEM"),) \
+                    + ((("await", "ITEM"), ("yield", ("val", "ITEM"))) if item_awaitable else (("yield", "ITEM"),)) \
+                    + (("end", how, resolved),)
+                got = {oc.env.get("@trace", ()) for oc in outs if oc.terminal.kind == "exit"}
+                bad = [oc for oc in outs if oc.terminal.kind != "exit"]
+                cell = (f"{'awaitable of ' if outer_awaitable else ''}{'async' if is_async else 'sync'} iterable of "
+                        f"{'awaitable' if item_awaitable else 'plain'} items")
+                table[cell] = sorted(map(str, got))[:1]
+                ctx.check(got == {want} and not bad, "R19.2", u, "any_iter",
+                          f"[{cell}] the outer object is awaited iff it is an Awaitable, then iterated by its own protocol, "
+                          "and each item is awaited (exactly once) iff it is an Awaitable",
+                          witness=f"evaluated trace(s): {sorted(map(str, got))[:2]}" + (f"; raises {bad[0].raised}" if bad else ""))
+    ctx.tables["any_iter shapes"] = table
 
 
 def r19_3(ctx) -> None:
@@ -210,47 +257,40 @@ def r19_4(ctx) -> None:
     u = ctx.unit("asynctools.sync")
     p = u.param_names()[0]
     cfg = cfg_of(u)
-    tests = [n for n in cfg.nodes if n.kind == "branch" and isinstance(n.ast, ast.Call) and
-             norm(n.ast.func).endswith("iscoroutinefunction") and norm(n.ast.args[0]) == p]
-    ctx.check(len(tests) == 1, "R19.4", u, "sync", "sync tests iscoroutinefunction(function)")
-    if tests:
-        from asl.flow import reachable
-        t = tests[0]
-        yes = reachable([s for (lab, s) in t.succ if lab == "t"], edge_ok=lambda a, lab, b: lab not in ("e", "p"))
-        rets = [n for n in yes if n.kind == "return"]
-        ctx.check(bool(rets) and all(norm(r.info.get("value")) == p for r in rets), "R19.4", u, rets[0] if rets else t,
-                  "a coroutine function is returned unchanged")
-    inner = [x for x in u.module.units.values() if x.parent is u]
-    ctx.check(len(inner) == 1 and inner[0].kind == "coroutine", "R19.4", u, "sync", "otherwise one coroutine wrapper is returned")
-    if len(inner) != 1:
+    inner = [x for x in u.module.units.values() if x.parent is u and x.kind in ("coroutine", "sync", "asyncgen")]
+    # coroutine functions pass through
+    outs = _run(ctx, u, {"iscoroutinefunction": {"FUNC": True}}, {p: "FUNC"})
+    got = {oc.returned if oc.terminal.kind == "exit" else ("raises", oc.raised) for oc in outs}
+    ctx.check(got == {"FUNC"}, "R19.4", u, "sync", "[coroutine function] it is returned unchanged", witness=str(sorted(map(str, got))))
+    # anything else: the nested coroutine wrapper is returned
+    outs = _run(ctx, u, {"iscoroutinefunction": {"FUNC": False}}, {p: "FUNC"})
+    wrappers = []
+    for oc in outs:
+        rets = [n for n in oc.path if n.kind == "return"]
+        rv = rets[-1].info.get("value") if rets and oc.terminal.kind == "exit" else None
+        hit = [x for x in inner if isinstance(rv, ast.Name) and x.qualname.endswith("." + rv.id)]
+        if not any(x is (hit[0] if hit else None) for x in wrappers):
+            wrappers.append(hit[0] if hit else None)
+    ok = len(wrappers) == 1 and wrappers[0] is not None and wrappers[0].kind == "coroutine"
+    ctx.check(ok, "R19.4", u, "sync", "[other callable] one coroutine wrapper is returned")
+    if not ok:
         return
-    w = inner[0]
-    calls = [c for c in own_nodes(w.node) if isinstance(c, ast.Call) and norm(c.func) == p]
+    w = wrappers[0]
     va = w.node.args.vararg.arg if w.node.args.vararg else None
     kw = w.node.args.kwarg.arg if w.node.args.kwarg else None
-    ok = len(calls) == 1 and [norm(a) for a in calls[0].args] == [f"*{va}"] and \
-        [(k.arg, norm(k.value)) for k in calls[0].keywords] == [(None, kw)]
-    ctx.check(ok, "R19.4", w, calls[0] if calls else "async_wrapped", "the target is called exactly once with *args, **kwargs")
-    wcfg = cfg_of(w)
-    paths = enumerate_paths(wcfg, wcfg.entry, lambda n: n is wcfg.exit)
-    for path in paths:
-        nodes = [n for n, _l in path]
-        tests = [(n, lab) for n, lab in path if n.kind == "branch" and isinstance(n.ast, ast.Call) and norm(n.ast.func) == "isinstance"
-                 and "Awaitable" in norm(n.ast)]
-        awaits = [n for n in nodes if n.kind == "await"]
-        rets = [n for n in nodes if n.kind == "return"]
-        if len(tests) != 1 or not rets:
-            ctx.fail("R19.4", w, "async_wrapped", "the wrapper decides by isinstance(result, Awaitable)")
-            continue
-        is_awaitable = tests[0][1] == "t"
-        res = norm(tests[0][0].ast.args[0])
-        if is_awaitable:
-            ok = len(awaits) == 1 and norm(awaits[0].info.get("value")) == res and rets[-1].info.get("value") is awaits[0].ast
-        else:
-            ok = not awaits and norm(rets[-1].info.get("value")) == res
-        ctx.check(ok, "R19.4", w, rets[-1], "an awaitable result is awaited and its value returned; a plain result is "
-                  "returned as is" if ok else "the wrapper mishandles the " + ("awaitable" if is_awaitable else "plain") + " result")
-    tries = [n for n in own_nodes(w.node) if isinstance(n, ast.Try)]
-    ctx.check(not tries, "R19.4", w, tries[0] if tries else "async_wrapped", "the wrapper catches nothing (same exception as the target)")
+    for awaitable in (False, True):
+        ctx.count("sync_cells")
+        sc = {"callables": {"FUNC": "RESULT"}, "isinstance": {("RESULT", "Awaitable"): awaitable}}
+        outs = _run(ctx, w, sc, {p: "FUNC"})
+        want_trace = (("call", "FUNC", (f"*{va}",), ((None, kw),)),) + ((("await", "RESULT"),) if awaitable else ())
+        want_ret = ("val", "RESULT") if awaitable else "RESULT"
+        got = {(oc.env.get("@trace", ()), oc.returned) for oc in outs if oc.terminal.kind == "exit"}
+        bad = [oc for oc in outs if oc.terminal.kind != "exit"]
+        ctx.check(got == {(want_trace, want_ret)} and not bad, "R19.4", w, w.node.name,
+                  f"[{'awaitable' if awaitable else 'plain'} result] the target is called once with *args, **kwargs and its "
+                  f"result is {'awaited and the value returned' if awaitable else 'returned as is'}",
+                  witness=str(sorted(map(str, got))[:2]))
+    tries = [n for n in own_nodes(w.node) if isinstance(n, ast.Try) and n.handlers]
+    ctx.check(not tries, "R19.4", w, tries[0] if tries else w.node.name, "the wrapper catches nothing (same exception as the target)")
     guard = [n for n in cfg.nodes if n.kind == "branch" and isinstance(n.ast, ast.Call) and norm(n.ast.func) == "callable"]
     ctx.check(bool(guard), "R19.4", u, "sync", "non-callables are rejected up front")
